@@ -501,9 +501,13 @@ func vh_C20_L11_handshake_result_before_the_caller_waits() {
 // also when the last waiting chunk leaves as the window probe (= C18.L2); a reader whose last
 // read timed out still learns that the association ended (= C08.L6); every writer parked
 // behind the gate is released when the association leaves ESTABLISHED (= C18.L6).
-func vh_C20_L12_gate_opens_when_the_probe_leaves()          { vh_C18_L2_block_write_gate() }
-func vh_C20_L12_teardown_error_reaches_a_timed_out_reader() { vh_C08_L6_closure_error_replaces_deadline_error() }
-func vh_C20_L12_every_parked_writer_is_released()           { vh_C18_L6_every_parked_writer_is_released_at_shutdown() }
+func vh_C20_L12_gate_opens_when_the_probe_leaves() { vh_C18_L2_block_write_gate() }
+func vh_C20_L12_teardown_error_reaches_a_timed_out_reader() {
+	vh_C08_L6_closure_error_replaces_deadline_error()
+}
+func vh_C20_L12_every_parked_writer_is_released() {
+	vh_C18_L6_every_parked_writer_is_released_at_shutdown()
+}
 
 // C20.L13: every message that becomes readable wakes a reader. Two or three goroutines are
 // parked in Read on one stream (ghost waiters of the stream's condition variable); two
